@@ -162,3 +162,26 @@ Theorem C10_split_parts :
                   s (POut i) = Absent \/ s (POut i) = s0 (POut i)).
 Proof. exact split_parts. Qed.
 Print Assumptions C10_split_parts.
+
+(* setup_task_paths with its refusal (one directory; names as character
+   codes): the task refuses to run exactly when the suffix-corrected output
+   name is one of the input names (e.g. output "data" for input
+   "data.rtdc") ... *)
+Theorem C10_setup_refuses_iff_output_is_input :
+  forall (inputs : list (list Z)) (name : list Z),
+    setup_paths inputs name = None <-> In (normalize_out name) inputs.
+Proof. exact setup_refuses_iff. Qed.
+Print Assumptions C10_setup_refuses_iff_output_is_input.
+
+(* ... and when it does run, the only two paths it unlinks - the output and
+   the temporary name, which is the output name plus "~" - are not among
+   the accepted inputs (.rtdc/.tdms): setup never removes an input. *)
+Theorem C10_setup_unlinks_no_input :
+  forall (inputs : list (list Z)) (name o t : list Z),
+    name <> [] ->
+    (forall inp, In inp inputs -> allowed_input inp = true) ->
+    setup_paths inputs name = Some (o, t) ->
+    o = normalize_out name /\ t = o ++ [tilde]
+    /\ ~ In o inputs /\ ~ In t inputs.
+Proof. exact setup_unlinks_no_input. Qed.
+Print Assumptions C10_setup_unlinks_no_input.
